@@ -142,6 +142,8 @@ class choice_point:
         else:
             self.matches_cur = self.matches = None
             return False
+        # the dependency lists still describe the package we just gave up on
+        self._reset_iters()
         return self.reduce_atoms([])
 
     @property
